@@ -443,6 +443,39 @@ theorem literal_inlinable (params : List (Str × BoundValue)) (name k : Str) (hn
    fun b hb => inlinable_boolean params name k b hn hk hb,
    fun d hd hdur hb => inlinable_duration params name k d hn hk hdur hd hb⟩
 
+/-- **C07 (bridge to the parser).** With nothing pushed back and bound values of the kinds `BindValue`
+can produce (`KindsOK`: never WS, COMMENT or EOF), `Parser.ScanIgnoreWhitespace` returns exactly the head
+of the *substituted* significant-token stream — kind and literal — and leaves the cursor where the rest of
+that stream starts. Together with `inline_equiv_tokens`: the successive `ScanIgnoreWhitespace` results on
+the template and on the inlined text are the same sequence of (kind, literal) pairs. -/
+theorem scanIW_delivers_substituted (s : PState) (hn : s.n = 0) (hp : KindsOK s.params) :
+    ∃ lx s', scanIW.run s = .ok (lx, s') ∧ s'.n = 0 ∧ s'.params = s.params ∧
+      (sigTokens s.r).map (substSig s.params) =
+        if lx.tok = .EOF then [lx.sig] else lx.sig :: (sigTokens s'.r).map (substSig s.params) := by
+  unfold scanIW
+  rw [P.runBind, P.run_get]
+  exact scanIWLoop_substituted _ s hn hp (by omega)
+
+/-- Every value of `BindValue` has such a kind. -/
+theorem setParams_kindsOK (m : List (Str × GoVal)) : KindsOK (setParams m) := by
+  intro k v h
+  induction m with
+  | nil => cases h
+  | cons x rest ih =>
+    obtain ⟨k1, g⟩ := x
+    simp only [setParams, List.map_cons, lookupParam] at h ih
+    by_cases hk : k1 = k
+    · simp only [hk, if_true, Option.some.injEq] at h
+      subst h
+      have : ∀ p : ParamValue, p.tokenType ≠ .WS ∧ p.tokenType ≠ .COMMENT ∧ p.tokenType ≠ .EOF := by
+        intro p
+        cases p <;> simp only [ParamValue.tokenType] <;> try (refine ⟨?_, ?_, ?_⟩ <;> decide)
+        rename_i b
+        cases b <;> (refine ⟨?_, ?_, ?_⟩ <;> decide)
+      exact this (bindValue g)
+    · simp only [hk, if_false] at h
+      exact ih h
+
 /-- Why negative integers are excluded at this level: `BindValue(-5)` is the single token
 (INTEGER, `-5`), the text `-5` is the two tokens `-` and `5`. -/
 theorem inline_negative_integer_is_two_tokens :
